@@ -35,7 +35,7 @@ var cons = []gen.Con{
 	{Name: "IE", Arity: 1}, {Name: "HBc", Arity: 1}, {Name: "HB1", Arity: 1}, {Name: "HBip", Arity: 1}, {Name: "HBe", Arity: 1},
 	{Name: "HBrt", Arity: 1}, {Name: "HB2", Arity: 1}, {Name: "HB2r", Arity: 1}, {Name: "HBbad", Arity: 1},
 	{Name: "HBhp", Arity: 1}, {Name: "HBhe", Arity: 1},
-	{Name: "PG", Arity: 2}, {Name: "IE2", Arity: 2}, {Name: "HBh", Arity: 2}, {Name: "HBx", Arity: 2}, {Name: "LIST2", Arity: 2},
+	{Name: "PG", Arity: 2}, {Name: "IE2", Arity: 2}, {Name: "HBc2", Arity: 2}, {Name: "HBrt2", Arity: 2}, {Name: "HBh", Arity: 2}, {Name: "HBx", Arity: 2}, {Name: "LIST2", Arity: 2},
 }
 
 func render(t *gen.Tree) string {
@@ -89,6 +89,11 @@ func render(t *gen.Tree) string {
 		return "(handler-bind ([condition 42]) " + k(0) + ")"
 	case "PG":
 		return "(progn " + k(0) + " " + k(1) + ")"
+	case "HBc2":
+		// two body forms: the forms after the failing one must not run
+		return "(handler-bind ([condition " + hList + "]) " + k(0) + " " + k(1) + ")"
+	case "HBrt2":
+		return "(handler-bind ([condition " + hRethrow + "]) " + k(0) + " " + k(1) + ")"
 	case "IE2":
 		return "(ignore-errors " + k(0) + " " + k(1) + ")"
 	case "HBh":
@@ -212,7 +217,7 @@ func run(r *core.Run) {
 	total := g.Total(size)
 	r.Bound("max_nodes", size)
 	r.Bound("terms", total)
-	r.Rule("every term of the condition grammar (11 leaves: value, marker, (error 'c1 ..) with plain / unquoted-symbol / unquoted-list data, (error 'c2), a lisp error NAMED internal-panic, a host panic, rethrow outside a handler, a builtin type error, an unbound symbol; 9 unary: ignore-errors and handler-bind with specifier condition / c1 / internal-panic / error / rethrowing handler / two bindings in both orders / a non-function handler; 5 binary: progn, 2-form ignore-errors, handler whose BODY is a term, handler EXPRESSION that evaluates a term, list) up to the node bound. Non-trivial = an error or host panic is raised somewhere in the term; distinct by source text")
+	r.Rule("every term of the condition grammar (11 leaves: value, marker, (error 'c1 ..) with plain / unquoted-symbol / unquoted-list data, (error 'c2), a lisp error NAMED internal-panic, a host panic, rethrow outside a handler, a builtin type error, an unbound symbol; 9 unary: ignore-errors and handler-bind with specifier condition / c1 / internal-panic / error / rethrowing handler / two bindings in both orders / a non-function handler; 7 binary: progn, 2-form ignore-errors, 2-form handler-bind bodies (catch-all and rethrowing), handler whose BODY is a term, handler EXPRESSION that evaluates a term, list) up to the node bound. Non-trivial = an error or host panic is raised somewhere in the term; distinct by source text")
 	r.Assume("function values print as #<fun>; error messages are not compared, condition names are")
 	core.ParallelRange(r, total, nil, func(_ struct{}, i int64) {
 		t := g.At(size, i)
